@@ -36,7 +36,7 @@ META = {
     },
 }
 CASES = {'quick': 500, 'thorough': 40000}
-SECONDS = {'quick': 60, 'thorough': 600}
+SECONDS = {'quick': 300, 'thorough': 600}
 
 
 def check_classes(lang, factory, res, count=True):
